@@ -38,6 +38,18 @@ CLAIMED = {
     ),
 }
 
+CLAIMED["C01"] = dict(
+    text="Theorems (coq/Properties/C01.v), for every adapter of the eight classes (flags regenerated from adapters.py/align.py), every threshold table and every read: "
+    "a reported match has coordinates inside adapter and read, obeys the documented placement rule of its type, covers at least min_overlap adapter characters, "
+    "has errors <= thr(non-N adapter characters aligned) and the documented removal side (C01_sound_partial, by an invariant on every origin stored in the DP column of the "
+    "line-by-line model of Aligner.locate); for the comparers (anchored, no indels) the error count is exactly the Hamming distance of the intervals (C01_comparer_exact). "
+    "PARTIAL: that the DP cost equals the edit distance of the reported intervals is not a theorem; it is covered by the correspondence (model = Aligner.locate / match_to on "
+    "all 16 flag sets and 8 classes) plus the textbook-distance oracle run on the implementation.",
+    technique="Coq proof (invariant over the column fold of a line-by-line model of Aligner.locate) + translators (tables, flags, scores) + extracted-model differential correspondence; oracle search",
+    design="6/C01",
+    note=TB + " The float comparison cost <= L*rate is modelled as cost <= thr[L] with thr[L] = int(L*rate) computed in CPython by the code's own expression.",
+)
+
 NOT_YET = {}
 
 
